@@ -174,7 +174,7 @@ def _close(x, y):
 
 def _interval_arith(res):
     from commonroad.common.util import Interval
-    scal = [-2, -1, -0.5, 0.5, 1, 3]
+    scal = [-2, -1, -0.5, 0.5, 1, 3, -3, 7, 10, 0.3]       # 3, 7, 10, 0.3: the reciprocal is not a binary fraction
     for (a, b) in _intervals():
         res.states += 1
         for s0 in scal + [0]:
@@ -196,6 +196,15 @@ def _interval_arith(res):
                         sign = "neg" if s0 < 0 else ("zero" if s0 == 0 else "pos")
                         res.violation(f"C16|Interval.{name}|arg:{_tn(s)}|scalar:{sign}|wrong-image",
                                       f"[{a},{b}] {name} {s} = [{r.start},{r.end}] expected [{float(lo)},{float(hi)}]", case)
+                    else:
+                        # "the image set": the image of every point of the interval, computed the way a caller would (x * s, x / s), lies in the result
+                        for x in (a, b, (a + b) / 2):
+                            img = x * s if name == "__mul__" else x / s
+                            if not (r.start <= img <= r.end):
+                                sign = "neg" if s0 < 0 else "pos"
+                                res.violation(f"C16|Interval.{name}|arg:{_tn(s)}|scalar:{sign}|image-of-a-point-outside-the-result",
+                                              f"{x} {name} {s} = {img!r} is not in [{a},{b}] {name} {s} = [{r.start!r},{r.end!r}]", case)
+                                break
                     res.outcomes[name] += 1
         for s0 in A:
             for s in _typed(s0):
